@@ -1417,6 +1417,12 @@ func runC16Lines(c *Ctx) {
 	} else {
 		c.bad(construct, fn.Pos(), "the split function does not look for CR")
 	}
+	// the token handed back is the Line-th one: the counter compared with e.Line is 1 for the first token
+	if why := lineCounterWhy(fn); why != "" {
+		c.bad("(*Error).getLine|the referenced line", fn.Pos(), why)
+	} else {
+		c.ok("(*Error).getLine|the referenced line", fn.Pos(), "the scanner's token is handed back under counter == e.Line, the counter being 1 for the first token and advanced once per Scan")
+	}
 }
 
 // ---- C16.COLUNIT ----
